@@ -203,6 +203,26 @@ def gen_equality(rng):
 
     ops = base + twin
 
+    if rng.chance(0.08):
+        # options that "should not matter" for a binary diff still make two
+        # trees different (they are written to the header)
+        d = {'$bytes': '89504e470d0a1a0a'}
+
+        for t in ('T1', 'T2'):
+            ops.append({'op': 'set', 'tree': t, 'path': [0, 0],
+                        'attr': 'diff', 'value': d})
+            ops.append({'op': 'set', 'tree': t, 'path': [0, 0],
+                        'attr': 'diff_type', 'value': 'binary'})
+
+        ops.append({'op': 'eq', 'a': 'T1', 'b': 'T2'})
+        ops.append({'op': 'set', 'tree': 'T2', 'path': [0, 0],
+                    'attr': rng.choice(['diff_line_endings',
+                                        'diff_encoding']),
+                    'value': rng.choice(['unix', 'dos'])})
+        ops.append({'op': rng.choice(['eq', 'ne']), 'a': 'T1', 'b': 'T2'})
+        ops.append(rename([ops[-2]], 'T2', 'T1')[0])
+        ops.append({'op': 'eq', 'a': 'T1', 'b': 'T2'})
+
     if rng.chance(0.04):
         # metadata with thousands of keys, filled in the opposite order in
         # the twin
@@ -232,7 +252,8 @@ def gen_equality(rng):
             # minimal perturbation of an existing content value
             attr = rng.choice(['preamble', 'meta'] if kind != 'file'
                               else ['diff', 'meta'])
-            how = rng.choice(['reverse_keys', 'retype']) \
+            how = rng.choice(['reverse_keys', 'retype', 'list_append',
+                              'list_append']) \
                 if attr == 'meta' else rng.choice(
                 ['append_nl', 'append_crlf', 'strip_nl', 'append_space',
                  'swapcase', 'prepend_bom'])
